@@ -174,6 +174,7 @@ type Explorer struct {
 	Capped      bool
 	visited     map[uint64]*E1State
 	init        *E1State
+	warned      map[string]bool
 	conflicts   int // steps in which a store write returned a conflict (vacuity guard)
 	// the content graph (world contents and moves between them), for the exact-queue confirmation
 	contentSnap  map[uint64]*WorldSnap
@@ -187,7 +188,9 @@ func queueKey(mode QueueMode, t Token) string {
 	if mode == QWorkSet {
 		return "ws"
 	}
-	if t.Src == "requeue" || t.Src == "retry" {
+	// Requeue results, retries and the replay after a restart are bags: the runtime delivers them in no particular
+	// order (the stores list their records in no particular order on the real atomix backend)
+	if t.Src == "requeue" || t.Src == "retry" || t.Src == "replay" {
 		return "rq:" + t.Ctrl
 	}
 	return "w:" + t.Src
@@ -332,6 +335,7 @@ func (x *Explorer) enq(queues map[string][]string, tokens []Token) map[string][]
 func (x *Explorer) Prepare() {
 	sc := x.Sc
 	x.visited = map[uint64]*E1State{}
+	x.warned = map[string]bool{}
 	x.terminals = hashSet{}
 	x.contentSnap = map[uint64]*WorldSnap{}
 	x.contentEdges = map[uint64]map[uint64]struct{}{}
@@ -456,6 +460,14 @@ func (x *Explorer) Run() {
 					call = r.Call(w)
 				}
 				tokens := w.Settle()
+				if call.Done && call.Err != nil && !x.warned[r.Name] {
+					// vacuity guard: a scenario request that the handler refuses outright explores nothing
+					x.warned[r.Name] = true
+					fmt.Printf("SCENARIO-WARNING scenario %q: request %q is refused at once: %v\n", sc.Name, r.Name, call.Err)
+					x.Rep.mu.Lock()
+					x.Rep.Coverage["scenario_requests_refused_at_once"] = fmt.Sprintf("%s: %s: %v", sc.Name, r.Name, call.Err)
+					x.Rep.mu.Unlock()
+				}
 				if !call.Done {
 					call.Cancel()
 					tokens = append(tokens, w.Settle()...)
